@@ -256,3 +256,15 @@ pub fn strip_ext(v: &GValue) -> GValue {
         x => x.clone(),
     }
 }
+
+/// error with its whole source chain
+pub fn err_chain(e: &dyn std::error::Error) -> String {
+    let mut s = e.to_string();
+    let mut cur = e.source();
+    while let Some(c) = cur {
+        s.push_str(": ");
+        s.push_str(&c.to_string());
+        cur = c.source();
+    }
+    s
+}
